@@ -94,6 +94,7 @@ func VerifMain(args []string) int {
 	maxT := fs.Int("maxt", 10, "maximum number of types per random case")
 	dir := fs.String("out", ".", "output directory for req.txt / impl.txt")
 	nodes := fs.Int("nodes", 3, "graph size for exhaustive modes")
+	src := fs.String("src", "", "directory of Go sources (rename mode)")
 	fs.Parse(args[1:])
 	out, closeOut := openOut(*dir)
 	defer closeOut()
@@ -201,6 +202,8 @@ func VerifMain(args []string) int {
 		runPathStreams(out, r, *n)
 	case "fields":
 		runFieldStreams(out, r, *n)
+	case "rename":
+		runRenameStreams(out, *src)
 	case "names":
 		runNameStreams(out, r, *n)
 	case "sig":
